@@ -7,11 +7,11 @@ IMPL = "impl Serializer for FlatSerializer"
 refusing = """serialize_bool serialize_unit serialize_none serialize_some serialize_unit_struct serialize_unit_variant
 serialize_struct_variant serialize_newtype_struct serialize_tuple serialize_tuple_struct serialize_tuple_variant
 serialize_newtype_variant serialize_seq serialize_bytes serialize_u8 serialize_u16 serialize_u32 serialize_u64 serialize_u128
-serialize_i8 serialize_i16 serialize_i32 serialize_i64 serialize_i128 serialize_f32 serialize_f64 serialize_char serialize_str""".split()
+serialize_i8 serialize_i16 serialize_i32 serialize_i64 serialize_i128 serialize_f32 serialize_f64 serialize_char serialize_str collect_str""".split()
 # return types that are associated types of the impl
 ASSOC = {"serialize_struct_variant": "SerializeStructVariant", "serialize_tuple": "SerializeTuple", "serialize_tuple_struct": "SerializeTupleStruct",
          "serialize_tuple_variant": "SerializeTupleVariant", "serialize_seq": "SerializeSeq"}
-GENERIC = {"serialize_some", "serialize_newtype_struct", "serialize_newtype_variant"}
+GENERIC = {"serialize_some", "serialize_newtype_struct", "serialize_newtype_variant", "collect_str"}
 out = []
 for m in refusing:
     ret = ASSOC.get(m, "Ok")
